@@ -94,6 +94,7 @@ type linProver struct {
 	intBits  int
 	budget   int
 	nnDepth  int
+	linDepth int
 	pre      []linFact // contract facts about the parameters (valid everywhere)
 	liftMode bool
 	lifted   []lin
@@ -617,6 +618,12 @@ func (m *lenMarker) Referrers() *[]ssa.Instruction { return nil }
 func (m *lenMarker) Pos() token.Pos                { return token.NoPos }
 
 func (lp *linProver) lin(v ssa.Value, cx *linCtx) lin {
+	// cyclic case-split substitutions (x = min(x, y) in a loop) must not recurse forever
+	lp.linDepth++
+	defer func() { lp.linDepth-- }()
+	if lp.linDepth > 120 {
+		return linAtom(v)
+	}
 	v = lp.canon(v)
 	if s, ok := cx.subst[v]; ok {
 		return lp.lin(s, cx)
